@@ -166,16 +166,25 @@ def run_ego(ego, env, sd, cases, mode, tag, stats, batch=BATCH):
 
 
 def run_go(sd, cases):
-    wd = os.path.join(sd, "gox")
-    os.makedirs(wd, exist_ok=True)
-    open(os.path.join(wd, "go.mod"), "w").write("module c06x\n\ngo 1.24\n")
-    open(os.path.join(wd, "main.go"), "w", encoding="utf8", newline="").write(go_program(cases))
-    p = vf.run([vf.GO, "run", "."], cwd=wd, env=vf.goenv(), timeout=900)
-    if p.returncode != 0:
-        raise vf.NoVerdict("Go cross-check: the generated cases are not a legal Go program (the spec's WF/grammar is wrong, "
-                           "not a finding):\n" + p.stderr[-3000:])
+    """all cases through the Go toolchain, as several programs of <= 6000 cases built side by side"""
+    parts = [cases[i:i + 6000] for i in range(0, len(cases), 6000)]
+
+    def one(n):
+        wd = os.path.join(sd, "gox%d" % n)
+        os.makedirs(wd, exist_ok=True)
+        open(os.path.join(wd, "go.mod"), "w").write("module c06x\n\ngo 1.24\n")
+        open(os.path.join(wd, "main.go"), "w", encoding="utf8", newline="").write(go_program(parts[n]))
+        p = vf.run([vf.GO, "run", "."], cwd=wd, env=vf.goenv(), timeout=1800)
+        if p.returncode != 0:
+            raise vf.NoVerdict("Go cross-check: the generated cases are not a legal Go program (the spec's WF/grammar is wrong, "
+                               "not a finding):\n" + p.stderr[-3000:])
+        return p.stdout
+    with ThreadPoolExecutor(max_workers=4) as ex:
+        outs = list(ex.map(one, range(len(parts))))
     byid = {c["id"]: c for c in cases}
-    got = collect(p.stdout, byid)
+    got = {}
+    for o in outs:
+        got.update(collect(o, byid))
     if len(got) != len(cases):
         raise vf.NoVerdict("Go cross-check printed %d of %d lines" % (len(got), len(cases)))
     return got
